@@ -443,6 +443,17 @@ impl HalfConnection {
 
         loop {
             if self.pending_queue.is_empty() {
+                if self.packet_sender.pending_count() != 0 {
+                    // Packets are only taken from the send queue while there is bandwidth to begin
+                    // sending them. A packet dequeued without bandwidth would wait in the pending
+                    // queue, where a TimeSensitive packet can no longer be dropped once stale and
+                    // would be transmitted (many) steps later.
+                    match dfe.check_bandwidth() {
+                        Err(_) => return Err(()),
+                        Ok(_) => (),
+                    }
+                }
+
                 if let Some((packet_rc, resend)) = self.packet_sender.emit_packet(flush_id) {
                     let pending_packet_ref = packet_rc.borrow();
 
